@@ -6,63 +6,13 @@
 // exploration and enumerated by the driver.  Oracle: every digest returned anywhere in a history equals the
 // digest of a fresh cache + fresh VM for the same (key,input,version); crashes are violations; the ASan
 // variant of the same exploration is the oracle for dangling pointers.
-#include "common/hist.hpp"
+#include "common/explore.hpp"
 #include "common/alph.hpp"
-#include <sys/wait.h>
-#include <sys/syscall.h>
 
 using namespace hist;
 #ifndef RX_PROFILE
 #define RX_PROFILE "mini"
 #endif
-
-struct Shared {
-	uint64_t states, transitions, hashes, dedup_hits, max_depth_reached, crashes, nviol, noutcomes;
-	uint64_t replays_checked;
-	struct V { char what[400]; int hlen; int h[24]; int signal; } viol[8];
-	uint64_t tabsize; struct E { uint64_t key; int depth_left; } tab[1];
-};
-static Shared* SH; static const uint64_t TAB = 1u << 21;
-
-static bool visit(uint64_t d, int depth_left) {   // true if the state must be (re)expanded
-	if (!d) d = 1; uint64_t i = d & (TAB - 1);
-	for (;;) { auto& e = SH->tab[i];
-		if (e.key == 0) { e.key = d; e.depth_left = depth_left; ++SH->states; return true; }
-		if (e.key == d) { if (e.depth_left >= depth_left) { ++SH->dedup_hits; return false; } e.depth_left = depth_left; return true; }
-		i = (i + 1) & (TAB - 1); }
-}
-static void record(const std::vector<Op>& h, const std::string& what, int sig) {
-	if (SH->nviol < 8) { auto& v = SH->viol[SH->nviol]; snprintf(v.what, sizeof v.what, "%s", what.c_str()); v.hlen = (int)std::min<size_t>(h.size(), 24); for (int i = 0; i < v.hlen; ++i) v.h[i] = h[i].code | (h[i].a << 8) | (h[i].b << 16); v.signal = sig; }
-	++SH->nviol;
-}
-
-static World W; static std::vector<Op> H; static std::vector<Op> OPS; static bool dedup = true;
-
-static void explore(int depth_left) {
-	if ((uint64_t)H.size() > SH->max_depth_reached) SH->max_depth_reached = H.size();
-	if (depth_left == 0 || SH->nviol >= 8) return;
-	for (const Op& o : OPS) {
-		if (!W.enabled(o)) continue;
-		fflush(stdout); pid_t pid = fork();
-		if (pid < 0) { perror("fork"); _exit(2); }
-		if (pid == 0) {
-			H.push_back(o); ++SH->transitions;
-			unsigned long before = W.hashes_checked;
-			bool ok = W.apply(o); SH->hashes += W.hashes_checked - before;
-			if (!ok) { record(H, W.problem, 0); _exit(0); }
-			uint64_t d = W.digest();
-			if (!dedup || visit(d, depth_left - 1)) { if (!dedup) ++SH->states; explore(depth_left - 1); }
-			_exit(0);
-		}
-		int st = 0; waitpid(pid, &st, 0);
-		if (WIFSIGNALED(st) || (WIFEXITED(st) && WEXITSTATUS(st) != 0)) {
-			std::vector<Op> h2 = H; h2.push_back(o); ++SH->crashes;
-			// a crash deeper in the subtree was recorded by the process that saw it; only record if it is ours
-			bool deeper = false; for (uint64_t i = 0; i < std::min<uint64_t>(SH->nviol, 8); ++i) if (SH->viol[i].hlen > (int)h2.size()) deeper = true;
-			if (!deeper) record(h2, "abnormal termination while applying the last operation (" + (WIFSIGNALED(st) ? "signal " + std::to_string(WTERMSIG(st)) : "exit " + std::to_string(WEXITSTATUS(st))) + ")", WIFSIGNALED(st) ? WTERMSIG(st) : -1);
-		}
-	}
-}
 
 struct EnvChoice { int reuse_small, reuse_large, fill; const char* name; };
 static const EnvChoice ENVS[] = {
@@ -123,7 +73,7 @@ int main(int argc, char** argv) {
 	vf::Result total = vf::run_shards(args, (int)jobs.size(), [&](int shard) {
 		vf::Result R; const Job& j = jobs[shard];
 		Alphabet A = make_alphabet(j.flags, th); set_env(j.env); dedup = j.dedup;
-		SH = (Shared*)syscall(SYS_mmap, nullptr, sizeof(Shared) + TAB * sizeof(Shared::E), PROT_READ | PROT_WRITE, MAP_SHARED | MAP_ANONYMOUS, -1, 0);   // private to this exploration and its descendants
+		explore_init();   // table private to this exploration and its descendants
 		W.A = &A; compute_expected(W); OPS = W.alphabet_ops();
 		for (auto& o : setup_ops(A)) { if (!W.enabled(o) || !W.apply(o)) { vf::Violation v; v.key = "c03:setup"; v.what = "setup operation " + op_str(o) + " failed: " + W.problem; v.replay = vf::Json::obj(); R.viol.push_back(v); return R; } H.push_back(o); }
 		visit(W.digest(), j.depth); explore(j.depth);
